@@ -183,6 +183,35 @@ def helpers(np):
                 fp_finite=fp_finite, Sum=Sum, arr_eq=arr_eq, np=np, shares_memory=shares_memory)
 
 
+_MUTANTS = {}
+
+
+def mutant_module(override):
+    """The mutated source of override['relpath'] executed as a module of its own (same name / package as the original)."""
+    relpath = override.get('relpath')
+    key = (relpath, override.get('old'), override.get('new'))
+    if key in _MUTANTS:
+        return _MUTANTS[key]
+    try:
+        modname = relpath[:-3].replace('/', '.')
+        mod = importlib.import_module(modname)
+        path = os.path.join(REPO, relpath)
+        src = open(path).read()
+        if override['old'] not in src:
+            return None
+        src = src.replace(override['old'], override['new'], 1)
+        m2 = types.ModuleType(modname + '__mutant')
+        m2.__dict__.update({k: v for k, v in mod.__dict__.items() if k.startswith('__') and k != '__name__'})
+        m2.__dict__['__name__'] = mod.__name__
+        m2.__dict__['__package__'] = mod.__package__
+        m2.__dict__['__file__'] = path
+        exec(compile(src, path, 'exec'), m2.__dict__)
+    except Exception:
+        m2 = None
+    _MUTANTS[key] = m2
+    return m2
+
+
 def load_function(target, override=None):
     relpath, qual = target.split('::')
     if relpath.startswith('verif:'):
@@ -250,15 +279,22 @@ def run_one(c, vals, np, om, override=None, tol=1e-9):
     built_old = c.native(vals, np, om)
     kwargs, sizes = built[0], built[1]
     okwargs = built_old[0]
-    if override and 'self' in kwargs:
-        # a mutation may sit in a CALLEE of the function under contract (e.g. a canary on compute_coeffs): the object
-        # becomes an instance of the mutant module's class, so that every method it calls is the mutated one
-        mcls = mod.__dict__.get(type(kwargs['self']).__name__)
-        if isinstance(mcls, type) and mcls is not type(kwargs['self']):
-            try:
-                kwargs['self'].__class__ = mcls
-            except TypeError:
-                pass
+    if override:
+        # a mutation may sit in a CALLEE of the function under contract (a canary on compute_coeffs, or on a component
+        # method called by a lemma harness): every argument object whose class is defined in the mutated file becomes an
+        # instance of the mutant module's class, so that the methods it runs are the mutated ones
+        mm = mod if getattr(mod, '__name__', '') == override.get('relpath', '')[:-3].replace('/', '.') else mutant_module(override)
+        if mm is not None:
+            for v in list(kwargs.values()):
+                cls = type(v)
+                if getattr(cls, '__module__', None) != mm.__dict__.get('__name__'):
+                    continue
+                mcls = mm.__dict__.get(cls.__name__)
+                if isinstance(mcls, type) and mcls is not cls:
+                    try:
+                        v.__class__ = mcls
+                    except TypeError:
+                        pass
     call = built[2] if len(built) > 2 else None
     env = helpers(np)
     env.update(sizes)
